@@ -175,7 +175,17 @@ func GenPFB(t *sim.Tape, maxSegs, maxLen int, allow ...PFBAnomaly) (*PFBStream, 
 		k := t.Choose(len(p.Segs))
 		p.Segs = p.Segs[:k+1]
 		s := &p.Segs[k]
-		if t.Choose(4) == 3 {
+		if k > 0 && t.Choose(5) == 0 {
+			// a stray byte (line end, NUL, blank, a doubled marker) in front of
+			// what would otherwise be a perfectly good later segment
+			raw := append([]byte{[]byte("\n\r\x00 \x80\x1a")[t.Choose(6)]}, (&PFBStream{Segs: []PFBSeg{{Marker: 0x80, Type: byte(1 + t.Choose(2)), Declared: 3, Data: []byte("abc")}}, EndMarker: true}).Bytes()...)
+			if raw[0] == 0x80 {
+				raw[1] = 0x80 // 80 80 01 ...: the second byte is not a type
+			}
+			s.Marker, s.Type = raw[0], raw[1]
+			s.Declared = int(uint32(raw[2]) | uint32(raw[3])<<8 | uint32(raw[4])<<16 | uint32(raw[5])<<24)
+			s.Data = raw[6:]
+		} else if t.Choose(4) == 3 {
 			// what really turns up where a PFB file is expected: other font and
 			// document formats (none of them starts with the marker byte)
 			m := sim.Pick(t, pfbLookAlikes)
